@@ -47,3 +47,21 @@ class Flaky:
         if name.startswith('__') or name == '_inner':
             raise AttributeError(name)
         return getattr(self._inner, name)
+
+
+class FlakyUniform(Flaky):
+    """Like Flaky, but behaves like a Uniform when it can be fitted (so it is distinguishable from the Gaussian fallback)."""
+
+    def __init__(self, *a, **k):
+        from copulas.univariate import UniformUnivariate
+        self._inner = UniformUnivariate()
+        self.fitted = False
+
+
+class GaussianUnivariate(FlakyUniform):
+    """A user class that merely SHARES ITS NAME with a library class (qualified name mc.boom.GaussianUnivariate); it behaves
+    like a Uniform and accepts any data."""
+
+    def fit(self, X):
+        self._inner.fit(X)
+        self.fitted = True
